@@ -327,3 +327,23 @@ Definition validate_command (nrepl : nat) (repl : list string) (s : sim) : bool 
   | [nc] => if Nat.eqb nrepl 0 then false else names_subset repl (map it_name (nc_opts nc))
   | _ => false
   end.
+
+(* ConsolidationValidator.Validate after the validation TTL. validateCandidates rebuilds the candidates from the cluster
+   state as it is NOW (GetCandidates with the method's ShouldDisrupt) and keeps those whose names the command proposes
+   (mapCandidates: the CURRENT objects filtered by the proposed names); the command is rejected when one is missing
+   ([present] = false), nominated, or over budget (C05: an input). validateCommand then re-simulates with these current
+   candidates, i.e. [s] is SimulateScheduling over the pods bound to the candidates at validation time. *)
+Definition map_candidates (proposed : list string) (current : list cand) : list cand :=
+  filter (fun c => mem (c_name c) proposed) current.
+Definition all_present (proposed : list string) (current : list cand) : bool :=
+  Nat.eqb (length (map_candidates proposed current)) (length proposed).
+Definition validate (present nominated budget_ok : bool) (nrepl : nat) (repl : list string) (s : sim) : bool :=
+  present && negb nominated && budget_ok && validate_command nrepl repl s.
+
+(* EmptinessValidator.Validate: the current candidates that the command proposes, are (still) empty and not nominated;
+   budgets non-binding. None = validation error (nothing left). *)
+Definition validate_empty (proposed : list string) (current : list (cand * bool)) : option (list string) :=
+  match filter (fun cn : cand * bool => mem (c_name (fst cn)) proposed && is_empty (fst cn) && negb (snd cn)) current with
+  | [] => None
+  | l => Some (map (fun cn : cand * bool => c_name (fst cn)) l)
+  end.
